@@ -33,8 +33,11 @@ claim(
     "local shape inference + guard dominance + dependence (AST)",
     "Decides that a cached core is a flat tuple of constraints cached together with the unsat decision, that "
     "unsat_core() answers () first when satisfiable and reads the native core only after a check statically bound to "
-    "the native solver it holds, and that tracking pairs each original constraint with its converted term and the "
-    "core fields survive copy/pickle.",
+    "the native solver it holds, that tracking pairs each original constraint with its converted term position by "
+    "position, that a tracked constraint is left unasserted only as the same formula (names come from a colliding "
+    "32-bit hash), that the core is drawn from the solver's own constraints and a cloned solver's core is matched by "
+    "formula, that the composite reads its concrete-False flag, and that the core fields survive copy/pickle but not "
+    "a blank copy.",
     "Not decided: that Z3's core is itself unsatisfiable (trusted). " + GENERIC_NOTE,
 )
 claim(
@@ -51,7 +54,8 @@ claim(
     "Decides that every field a frontend class initialises is restored or rebuilt on unpickling - rebuilt blank only "
     "where blank means 'nothing known' -, that "
     "__getstate__/__setstate__ agree slot by slot and chain to the next class in every solver's MRO.",
-    "Not decided: equality of answers after a round trip; cross-process hash stability. " + GENERIC_NOTE,
+    "Also: an unpickled composite owns no child; sorts and rounding modes enter AST hashes by their fields (hash keys "
+    "are pickled). Not decided: equality of answers after a round trip; hash stability of user annotations. " + GENERIC_NOTE,
 )
 claim(
     "C26",
@@ -83,7 +87,9 @@ claim(
     "are stored back, neither side owns shared children after a branch, merge disowns, split hands out branches), "
     "that every query establishes satisfiability of all groups before delegating to the merged child, that "
     "UNSAT/UNKNOWN child answers propagate, that the concrete-False flag (kept in no child) is read by split and merge, "
-    "that an unpickled composite re-checks every child, plus the cache/forwarding/field rules shared with C11.",
+    "that an unpickled composite re-checks every child and owns none of them, that the merged remainder of a merge is "
+    "filed over existing children only where it shares no variable with them, that simplify() carries every child's "
+    "constraints over, plus the cache/forwarding/field rules shared with C11.",
     "Not decided: correctness of the partition computed by _split_constraints on runtime data, model "
     "re-absorption bookkeeping, the answers themselves. " + GENERIC_NOTE,
 )
@@ -128,13 +134,16 @@ claim(
     "C02",
     "table agreement and parameter-use dependence on the float handlers; abstract interpretation over the seven IEEE "
     "classes for the division-by-zero arm (AST)",
-    "Decides the rounding-mode tables (decimal and Z3, round trip), that every concrete handler of an op with a "
-    "rounding mode uses it (or refuses to fold), that comparisons/predicates/arithmetic delegate to the operator of "
+    "Decides the rounding-mode tables (decimal and Z3, round trip), that on every value-returning path of a concrete "
+    "handler of an op with a rounding mode the value depends on the mode, or the mode is known to be the default, or an "
+    "operand is known to be a special value (or the handler refuses to fold), that the sign of a zero is never taken by "
+    "an order comparison, that comparisons/predicates/arithmetic delegate to the operator of "
     "the same meaning in operand order, that the fpToFP/fpToIEEEBV cancellations are guarded by sort/width "
     "agreement, that the ZeroDivisionError arm of concrete division yields the IEEE class for all 14 "
     "(numerator class, zero sign) pairs, and that float-to-integer conversions handle NaN and infinity.",
-    "Not decided: numerical results of finite arithmetic (double rounding for single precision, subnormals, "
-    "remainder). " + GENERIC_NOTE,
+    "Not decided: that the arithmetic behind a mode-dependent path is the correctly rounded one (the exact-rational "
+    "rounding added by fixes 24086db / 84b5d85 was validated against Z3 by a probe, which is not a registered check); "
+    "remainder. " + GENERIC_NOTE,
 )
 claim(
     "C03",
@@ -162,7 +171,9 @@ claim(
     "C05",
     "def-use agreement in Base.__new__, who-may-construct / who-may-override rules, width-table agreement (AST)",
     "Decides that what is hashed is what is stored and that symbolic/variables/depth derive from the children of "
-    "those args, that make_like's metadata-copying fast path is reachable only with the receiver's own op/args, "
+    "those args - all AST arguments, on every path -, that make_like's metadata-copying fast path is reachable only "
+    "with the receiver's own op/args and its slow path hands variables/symbolic over from a node only when the rebuilt "
+    "op is that node's own, that replace_dict compares widths before substituting, "
     "that explicit metadata overrides happen only at sanctioned sites with the right values, that raw constructions "
     "pass a length, and that every sized op declares the width function its meaning requires.",
     "Not decided: that a concrete value is the value denoted (that is C01). " + GENERIC_NOTE,
@@ -173,7 +184,8 @@ claim(
     "machinery (AST)",
     "Decides that the identity fields agree across _calc_hash/_ast_serialize/__reduce__/_d, that AST objects are "
     "allocated only after a table lookup under the same hash, that secondary caches are written under the guard "
-    "they are read under, and that nothing feeding the structural hash goes through builtin hash().",
+    "they are read under, that nothing feeding the structural hash goes through builtin hash(), and that every non-AST "
+    "argument class of the op registry (sorts, rounding modes) is serialised by a branch of its own.",
     "Assumed: collision freedom of the 64-bit blake2b digest. " + GENERIC_NOTE,
 )
 claim(
@@ -181,7 +193,9 @@ claim(
     "must-pass-through (_handle_annotations) and dependence rules on every rewriting path (AST)",
     "Decides that every rewrite result (simplifier, eager fold, If() shortcuts) passes through _handle_annotations "
     "or keeps all arguments whole, that _handle_annotations vetoes on lost non-eliminatable annotations and "
-    "relocates relocatable ones, that Base.__new__ inherits children's annotation sets before hashing, that "
+    "relocates relocatable ones, that a simplifier claims 'already annotated' only for a result of "
+    "_handle_annotations, that Base.__new__ (and make_like's fast path) inherit the non-eliminatable summary from "
+    "every AST child unconditionally and the relocatable one unless skip_child_annotations, before hashing, that "
     "flattening refuses non-relocatable annotations, that explicit simplification re-attaches annotations, and that "
     "solvers simplify only constraints without SimplificationAvoidanceAnnotation.",
     "Not decided: behaviour of user-defined relocate(). " + GENERIC_NOTE,
@@ -202,8 +216,9 @@ claim(
     "Decides that the decl kind produced by each op's Z3 translation maps back to that op with the right AST "
     "class, that ops with non-AST parameters have a recovering arm which rebuilds the op of its own name with the "
     "children in order, that rounding modes round-trip, that ConstrainedFrontend.simplify keeps every constraint and "
-    "is the only simplification site, and that FullFrontend empties its pending-constraint list only where the "
-    "native solver is dropped or was just given everything.",
+    "is the only simplification site, that the composite's simplify() carries every child's constraints over, that "
+    "tracked constraints are paired with their converted terms position by position, and that FullFrontend empties "
+    "its pending-constraint list only where the native solver is dropped or was just given everything.",
     "Trusted: that Z3's simplifier preserves meaning; the frozen table of decl kinds per constructor. Not decided: "
     "which other kinds Z3's simplifier may emit. " + GENERIC_NOTE,
 )
@@ -239,7 +254,10 @@ claim(
     "right shift keeps a shifted stride only where 2**n divides it; shift ranges come from a non-wrapping amount "
     "only; left-shifted bounds become an interval only under a span fact; each bound gets its own sign fill; the "
     "remainder is x - (x div t)*t over the loop's pieces; every division by a stride is under a non-zero fact; a "
-    "width is overwritten only on an object that cannot wrap; congruence tests use an upward modular distance.",
+    "width is overwritten only on an object that cannot wrap; congruence tests use an upward modular distance; "
+    "equality is definite only for equal single values or an operand compared with itself (not by name); lazily "
+    "reversed operands are computed on unreversed only for operations that commute with the byte reversal, flags "
+    "cleared; a value-determining field is written only on an object created during the call.",
     "Assumes each piece returned by _signed_bounds/_unsigned_bounds has lb <= ub and covers the members. Not "
     "decided: the numerics of mul/udiv/bitwise (Warren) and of the overflow predicates. Known finding: sdiv rounds "
     "mixed-sign quotients down (four existing tests pin that). " + GENERIC_NOTE,
